@@ -56,7 +56,11 @@ ASSUMPTIONS = [
     'Arrow: tuples come back as records with keys "0","1",..; option-ness at top level, regular vs variable lists without tensors, '
     'index widths and unknown types are outside the promise; union-of-option vs option-of-union are identified',
     'to_numpy must succeed only on rectilinear numeric/bool/option data; elsewhere a ValueError is accepted, a wrong value is not',
-    'model voter covers non-partitioned arrays with core dtypes (bool, (u)int8..64, float32/64) and default key formats',
+    'model voter (bufrun) covers non-partitioned, non-virtual arrays with core dtypes (bool, (u)int8..64, float32/64), __array__ / '
+    '__record__ parameters only, all three form_key / key_format styles; the other cases are decided by the implementation-only checks',
+    'inputs that run into a registered defect of the pinned tree are kept at ~12 % of their natural rate (risk tags in the evidence)',
+    'to_buffers of a partitioned array whose partitions have different Forms raises ValueError: documented refusal, counted, not a finding',
+    'pyarrow validate(full=True) failures (dense-union offsets not increasing per child) are recorded in the evidence only',
 ]
 TRUSTED_BASE = [
     'Rocq kernel: coqc 8.16.1; no axioms (parsed from Print Assumptions on this run)',
@@ -206,6 +210,12 @@ def tlen(t):
         return int(t[2][0]) if t[2] else 0
     r = G.child_len(t)
     return int(r) if r is not None else 0
+
+
+def strip_wrappers(t):
+    while t[0] in ('par', 'parx', 'virt'):
+        t = t[3]
+    return t
 
 
 def offsets_beyond(t):
@@ -813,7 +823,7 @@ def auto_sig(c, obl, what, lines):
         if 'cannot convert NumPy dtype with kind' in text:
             return 'buffers-datetime-form' if c.op in ('buffers', 'pickle') else 'datetime-timedelta-support-incomplete'
         if re.search(r'(datetime64|timedelta64)(\[\w+\])?[^>]*-> .*float64', what) or "has no attribute 'dtype'" in text \
-                or 'can only concatenate tuple' in text or "has no attribute 'shape'" in text \
+                or 'can only concatenate tuple' in text or "has no attribute 'shape'" in text or "has no attribute 'ndim'" in text \
                 or ('does not conform to expected form' in text and ('"datetime64"' in text or '"timedelta64"' in text)):
             return 'datetime-timedelta-support-incomplete'
         if tree_feature(tree, lambda t: t[0] == 'np' and ('datetime64' in t[1] or 'timedelta64' in t[1]) and len(t[3]) == 0):
@@ -848,9 +858,12 @@ def auto_sig(c, obl, what, lines):
         if 'subarray lengths are not regular' in text or ("cannot convert 'None' values" in text and 'refused rectilinear' in what):
             return 'to_numpy-looks-at-unreachable-content'
         zero_shape = re.search(r'shape \((\d+ )*0( \d+)*\)', text) or re.search(r'shapes? \(([\d,]*,)?0[,)]', text)
-        collapsed = any(l.rstrip().endswith(': (l)') for l in lines[1:])
-        if (c.meta.get('zero_dim') or '(l)' in text) and (zero_shape or collapsed):
+        collapsed = any(re.search(r':\s+\(l\)$', l.rstrip()) for l in lines[1:])
+        if (c.meta.get('zero_dim') or '(l)' in text) and (zero_shape or collapsed or ('differs from' in what and '(l)' in ' '.join(lines[1:]))):
             return 'numpy-zero-length-dimension'
+        if 'to_numpy(a) differs from to_list(a)' in what and tree_feature(tree, lambda t: t[0] == 'rec' and any(
+                strip_wrappers(x)[0] in ('ixo', 'bym', 'bim') for x in t[3:])):
+            return 'to_numpy-record-drops-field-masks'
         if 'differs from to_list' in what and tree_feature(tree, lambda t: t[0] == 'rec' and any(
                 tlen(x) > int(t[1]) for x in t[3:])):
             return 'to_numpy-record-uses-field-length'
@@ -874,7 +887,7 @@ def auto_sig(c, obl, what, lines):
             return 'arrow-union-index-longer-than-tags'
         if 'Array chunks must all be same type' in text:
             return 'arrow-partition-types-differ'
-        if 'too small in array of type' in text:
+        if 'too small in array of type' in text or ('mask must not be shorter than its ceil' in text and tree_feature(tree, lambda t: t[0] == 'un')):
             return 'arrow-validity-bitmap-shorter-than-content'
         if 'has another value than a' in what and tree_feature(tree, lambda t: t[0] == 'un' and any(
                 x[0] in ('ixo', 'bym', 'bim', 'unm') or (x[0] in ('par', 'parx') and x[3][0] in ('ixo', 'bym', 'bim', 'unm')) for x in t[4:])):
@@ -1049,6 +1062,10 @@ def np_equiv(a, b, boolnum=False):
         if isinstance(x, list) and x and x[0] == 'l':
             return all(leaves_all_none(y) for y in x[1:])
         return x == 'none'
+    if isinstance(a, list) and a and a[0] == 't':          # NumPy has no tuples: structured arrays with fields "0", "1", ..
+        a = arrow_norm_value(a)
+    if isinstance(b, list) and b and b[0] == 't':
+        b = arrow_norm_value(b)
     if isinstance(a, list) and a and a[0] == 'l' and isinstance(b, list) and b and b[0] == 'l':
         return len(a) == len(b) and all(np_equiv(x, y, boolnum) for x, y in zip(a[1:], b[1:]))
     if a == 'none' and isinstance(b, list) and b and b[0] == 'l':
@@ -1282,8 +1299,14 @@ class NotModelled(Exception):
     pass
 
 
+FK_RE = {'default': r'node(\d+)', 'custom': r'N(\d+)', 'callable': r'k(\d+)[LE]'}
+KF_RE = {'default': r'^part(?P<p>\d+)-(?P<fk>%s)-(?P<a>\w+)$', 'custom': r'^(?P<a>\w+)/(?P<fk>%s)/(?P<p>\d+)$',
+         'callable': r'^(?P<p>\d+):(?P<a>\w+):(?P<fk>%s)$'}
+FK_KIND = ['default']      # form_key style of the case being translated
+
+
 def fk_num(fk):
-    m = re.match(r'^node(\d+)$', fk or '')
+    m = re.match('^' + FK_RE[FK_KIND[0]] + '$', fk or '')
     if not m:
         raise NotModelled('form_key')
     return m.group(1)
@@ -1339,8 +1362,12 @@ def form_sx(fj):
 def model_line(c, r):
     """bufrun input line for a buffers case, or raises NotModelled"""
     o = dict((x[0], x[1:]) for x in c.meta['opts'])
-    if any(k in o for k in ('fk', 'kf', 'parts', 'partitioned', 'repart')):
-        raise NotModelled('options')
+    if any(k in o for k in ('parts', 'partitioned', 'repart')):
+        raise NotModelled('partitioned')
+    FK_KIND[0] = str(o.get('fk', ['default'])[0])
+    kf_kind = str(o.get('kf', ['default'])[0])
+    key_re = re.compile(KF_RE[kf_kind] % FK_RE[FK_KIND[0]].replace('(', '(?:'))
+    pstart = str(o.get('pstart', ['0'])[0])
     tree = c.meta['tree']
     if tree_has(tree, ('virt', 'parx')):
         raise NotModelled('virtual-or-parameters')
@@ -1353,10 +1380,10 @@ def model_line(c, r):
     fj = json.loads(unhx(get(tb[1], 'form')))
     ents = []
     for e in fld(items, 'container')[1:]:
-        m = re.match(r'^part\d+-node(\d+)-(\w+)$', unhx(e[0]))
-        if not m:
+        m = key_re.match(unhx(e[0]))
+        if not m or m.group('p') != pstart:
             raise NotModelled('key')
-        ents.append('(%s %s %s %s)' % (m.group(1), m.group(2), e[1][1], unparse(e[1][3])))
+        ents.append('(%s %s %s %s)' % (fk_num(m.group('fk')), m.group('a'), e[1][1], unparse(e[1][3])))
     rt = item_status(fld(items, 'arr'))
     trace = ''
     if rt is None:
